@@ -963,3 +963,13 @@ VARIANTS['C04'] += [
       [('dashlive/mpeg/mp4.py', "    def encode(self, dest):\n        w = FieldWriter(self, dest)\n        w.writebits(1, 'ref_type')\n        w.writebits(31, 'ref_size')\n        w.writebits(32, 'duration')\n        w.writebits(1, 'starts_with_SAP')\n        w.writebits(3, 'SAP_type')\n        w.writebits(28, 'SAP_delta_time')\n        w.done()",
         "    def encode(self, dest):\n        bits = FieldWriter(self, dest)\n        bits.writebits(1, 'ref_type')\n        bits.writebits(31, 'ref_size')\n        bits.writebits(32, 'duration')\n        bits.writebits(1, 'starts_with_SAP')\n        bits.writebits(3, 'SAP_type')\n        bits.writebits(28, 'SAP_delta_time')\n        bits.done()")], None),
 ]
+
+VARIANTS['C18'] += [
+    V('next decode time carried over only from segments fetched in this pass',
+      [('dashlive/mpeg/dash/validator/representation.py', "            if not seg.validated:\n                await seg.validate()\n            self.log.debug('%s: Segment %s decode time span: %s -> %s', self.id,\n                           seg.name, seg.decode_time, seg.next_decode_time)\n            next_decode_time = seg.next_decode_time\n",
+        "            if not seg.validated:\n                await seg.validate()\n                next_decode_time = seg.next_decode_time\n            self.log.debug('%s: Segment %s decode time span: %s -> %s', self.id,\n                           seg.name, seg.decode_time, seg.next_decode_time)\n")],
+      'R18.9', 'Representation.validate'),
+    V('neutral: next sequence number as a conditional expression',
+      [('dashlive/mpeg/dash/validator/representation.py', "            if seg.seg_num is None:\n                next_seg_num = None\n            else:\n                next_seg_num = seg.seg_num + 1\n",
+        "            next_seg_num = None if seg.seg_num is None else seg.seg_num + 1\n")], None),
+]
